@@ -293,15 +293,15 @@ func (s *Socket) Close() {
 
 // Snapshot copies the socket's observable state.
 type SocketInfo struct {
-	Index             int
-	Iface             string
-	VPN               bool
-	Filter            string
-	SnapLen           int
-	Writes            []Write
+	Index              int
+	Iface              string
+	VPN                bool
+	Filter             string
+	SnapLen            int
+	Writes             []Write
 	OpenedAt, ClosedAt time.Time
-	Closed            bool
-	Offered, Accepted int
+	Closed             bool
+	Offered, Accepted  int
 }
 
 func (s *Socket) Info() SocketInfo {
